@@ -338,7 +338,7 @@ Proof. intro W. rewrite do_remove_nf by exact W. apply timers_removed. Qed.
 Lemma timers_do_add st ms n cb kw : wf st -> 0 <= n ->
   timers (do_add ms n cb kw st) = rm n (timers st) ++ [mkT (next st) (now st + 1000 * ms) n cb kw].
 Proof.
-  intros W Hn. unfold do_add. destruct (Z.ltb_spec n 0); [lia|].
+  intros W Hn. rewrite do_add_client_name by exact Hn. unfold add_named.
   set (st0 := mkS (now st) (next st + 1) (dict st) (timers st) (log st)).
   assert (W0 : wf st0) by (destruct W as [D [N1 N2]]; repeat split; auto).
   rewrite do_remove_nf by exact W0. cbn. rewrite timers_removed. reflexivity.
